@@ -597,34 +597,42 @@ pub struct Drive<'a> {
     pub max_hay: usize,
 }
 
-/// Enumerated small scope + structured random, calling `check` for every
-/// (pattern list, configuration, haystack, span).
-pub fn drive(
+/// Exhaustive small scope: every pattern list (order and duplicates matter) of
+/// at most `max_pats` strings of length <= `max_pat_len` over `alpha`, every
+/// haystack of length <= `max_hay_len` over `alpha`, all spans, the fixed
+/// configuration set, for each requested case-folding mode.
+#[allow(clippy::too_many_arguments)]
+fn enumerate(
     ctx: &Ctx,
     rep: &mut Report,
     d: &Drive<'_>,
+    alpha: &[u8],
+    max_pat_len: usize,
+    max_pats: usize,
+    max_hay_len: usize,
+    ci_modes: &[bool],
+    label: &str,
     check: &mut dyn FnMut(&mut Report, &[Vec<u8>], &Built, &[u8], (usize, usize)),
 ) {
-    // ---- enumeration over {a,b}
-    let (plen, hlen) = d.enum_scope;
-    if plen > 0 {
-        let strings = gen::all_strings(b"ab", plen);
-        let lists = gen::all_lists(&strings, 3);
-        let hays = gen::all_strings(b"ab", hlen);
-        let mut nlists = 0u64;
-        for (i, pats) in lists.iter().enumerate() {
-            if !ctx.mine(i) {
-                continue;
-            }
-            if !d.profile.allow_empty && pats.iter().any(|p| p.is_empty()) {
-                continue;
-            }
-            if pats.len() < d.profile.min_pats {
-                continue;
-            }
-            nlists += 1;
-            for &kind in d.kinds {
+    let strings = gen::all_strings(alpha, max_pat_len);
+    let lists = gen::all_lists(&strings, max_pats);
+    let hays = gen::all_strings(alpha, max_hay_len);
+    let mut nlists = 0u64;
+    for (i, pats) in lists.iter().enumerate() {
+        if !ctx.mine(i) {
+            continue;
+        }
+        if !d.profile.allow_empty && pats.iter().any(|p| p.is_empty()) {
+            continue;
+        }
+        if pats.len() < d.profile.min_pats {
+            continue;
+        }
+        nlists += 1;
+        for &kind in d.kinds {
+            for &ci in ci_modes {
                 for cfg in enum_cfgs(kind, d.anchored) {
+                    let cfg = cfg.ci(ci);
                     let s = match guard(|| cfg.build(pats)) {
                         Ok(Ok(s)) => s,
                         Ok(Err(e)) => {
@@ -659,7 +667,32 @@ pub fn drive(
                 }
             }
         }
-        rep.tally_n("enumerated_pattern_lists", nlists);
+    }
+    rep.tally_n(&format!("enumerated_pattern_lists_{}", label), nlists);
+}
+
+/// Enumerated small scope + structured random, calling `check` for every
+/// (pattern list, configuration, haystack, span).
+pub fn drive(
+    ctx: &Ctx,
+    rep: &mut Report,
+    d: &Drive<'_>,
+    check: &mut dyn FnMut(&mut Report, &[Vec<u8>], &Built, &[u8], (usize, usize)),
+) {
+    // ---- enumeration over {a,b}
+    let (plen, hlen) = d.enum_scope;
+    if plen > 0 {
+        enumerate(ctx, rep, d, b"ab", plen, 3, hlen, &[false], "ab", check);
+        // second small scope with both cases of a letter: case-sensitive and
+        // case-insensitive searchers over {a, A, b}
+        if d.ci {
+            let (mp, mh) = match ctx.tier {
+                Tier::Tiny => (1, 2),
+                Tier::Quick => (2, 4),
+                Tier::Thorough => (3, 5),
+            };
+            enumerate(ctx, rep, d, b"aAb", 2, mp, mh, &[false, true], "aAb", check);
+        }
     }
     // ---- structured random
     let mut root = Rng::new(ctx.seed).fork(0x5E11 + ctx.shard as u64);
@@ -710,7 +743,7 @@ pub fn drive(
 }
 
 fn scope(tier: Tier) -> (usize, usize) {
-    tier.pick((1, 3), (2, 5), (3, 6))
+    tier.pick((1, 3), (2, 5), (3, 7))
 }
 
 // ------------------------------------------------------------ monitors
